@@ -140,6 +140,7 @@ JP runC16(uint64_t runSeed, int64_t runIdx, const TierCfg &cfg) {
             // make sure each non-benign fill and both reuse policies occur
             if (i == 1) c.knobs.fill = 0, c.knobs.placement = 1;
             if (i == 2) c.knobs.fill = 2, c.knobs.placement = 2;
+            if (i == 3) c.knobs.smallStack = 1;
             c.fillSeed = rng.u64();
         }
         if (stepC16(c, ref, st, chain, viol, probes)) {
